@@ -26,7 +26,7 @@
 const char *target_name = "wait";
 
 enum { L_STRANGER_DIES, L_TWO_QUEUED, L_PID_REUSE, L_SPAWN_EXITS_AT_ONCE, L_UNREG_IN_HANDLER, L_KILL_HELPER, L_KILL_AFTER_DEATH, L_STOP_CONT, L_TWO_THREADS,
-       L_REGISTER_EXISTING, L_CROSS_THREAD_DELIVERY, L_M0, L_M1, L_M2, L_M3, L_UNREG_WITH_PENDING, L_MANY_IN_ONE_SIGCHLD, L_STRANGER_FIRST };
+       L_REGISTER_EXISTING, L_CROSS_THREAD_DELIVERY, L_M0, L_M1, L_M2, L_M3, L_UNREG_WITH_PENDING, L_MANY_IN_ONE_SIGCHLD, L_STRANGER_FIRST, L_KILL_RACES_REAP };
 
 #define FAILC(tag, ...) vz_fail("C11", tag, __VA_ARGS__)
 static void fail_any(const char *tag, const char *fmt, ...)
@@ -248,6 +248,8 @@ void int_unregister(struct owner *o, int i)
 	if (n_registered_interests() == 0) for (int k = 0; k < MAXCH; k++) ch[k].owed_reap = 0;
 	memset(m->iv, 0x5A, sizeof *m->iv); free(m->iv); m->iv = NULL;
 }
+static __thread int kill_bias;
+static void on_point(const char *why) { if (kill_bias && !strcmp(why, "mutex_lock")) { kill_bias = 0; if (sched_other_runnable()) sched_yield_to_others("kill-helper-at-lock"); } }
 static void int_kill(struct owner *o, int i)
 {
 	struct mint *m = &o->is[i];
@@ -256,7 +258,11 @@ static void int_kill(struct owner *o, int i)
 	int was_dead = m->dead;
 	vz_label(L_KILL_HELPER); if (was_dead) vz_label(L_KILL_AFTER_DEATH);
 	vz_hash_u(0x500 + sig);
+	/* the child has terminated but is not reaped yet and another thread may be about to reap it: have that thread run as soon as
+	 * the helper reaches its first synchronisation point (a generated schedule finds this window too, only far less often) */
+	{ struct vchild *c = child_by_pid(m->pid); if (c && c->state == CS_ZOMBIE && nown > 1 && ch_n(2)) { kill_bias = 1; vz_label(L_KILL_RACES_REAP); } }
 	int r = iv_wait_interest_kill(m->iv, sig);
+	kill_bias = 0;
 	vz_log("[T%d] interest %d.%d: kill helper(sig %d) -> %d", sched_self(), m->owner, i, sig, r);
 	if (was_dead && r != -ESRCH) FAILC("kill-helper-result", "iv_wait_interest_kill on a reaped child returned %d, expected -ESRCH", r);
 }
@@ -366,7 +372,7 @@ void target_run(void)
 	vk_reset();
 	vk_hooks.wait_block = hook_wait_block; vk_hooks.epoll_ctl_pre = hook_epoll_ctl_pre; vk_hooks.io_pre = sched_io_pre; vk_hooks.io_post = sched_io_post;
 	vk_active = 1; virt_active = 1;
-	sched_on_deadlock = on_deadlock; sched_on_idle = on_idle;
+	sched_on_deadlock = on_deadlock; sched_on_idle = on_idle; sched_on_point = on_point;
 	iv_set_fatal_msg_handler(fatal_handler);
 	sched_init();
 	iv_init();
